@@ -46,13 +46,14 @@ OV_MCREW = dict(name="mcrew", files={
     "_overlay/mcrew/zz_verif_c16_test.go": "cmd/mcrew/zz_verif_c16_test.go",
     "_overlay/mcrew/zz_verif_c17_test.go": "cmd/mcrew/zz_verif_c17_test.go",
     "_overlay/mcrew/zz_verif_c14_test.go": "cmd/mcrew/zz_verif_c14_test.go",
+    "_overlay/mcrew/zz_verif_util_test.go": "cmd/mcrew/zz_verif_util_test.go",
 })
 
 A_MATCH = ["the reference matcher (lib/refmatch), written from README/doc/rfc.md, is the oracle",
            "messages and bound values contain no string starting with '?' (as the property states)"]
-reg("C01", "./checks/match", "^TestC01", assumptions=A_MATCH)
-reg("C02", "./checks/match", "^TestC02", assumptions=A_MATCH)
-reg("C03", "./checks/match", "^TestC03", race=True, shards=(2, 16),
+reg("C01", "./checks/match", "^TestC01", assumptions=A_MATCH, fuzz=[("./checks/match", "FuzzC01Sound", 90)])
+reg("C02", "./checks/match", "^TestC02", assumptions=A_MATCH, fuzz=[("./checks/match", "FuzzC02Planted", 60)])
+reg("C03", "./checks/match", "^TestC03", race=True, shards=(2, 16), fuzz=[("./checks/match", "FuzzC03Pure", 60)],
     assumptions=["schedules are sampled by the Go scheduler under the race detector",
                  "map iteration orders are reached by rebuilding maps in permuted insertion order"])
 
@@ -60,14 +61,14 @@ reg("C03", "./checks/match", "^TestC03", race=True, shards=(2, 16),
 A_CORE = ["the executable step rule (lib/sm/refstep.go), written from README 'Processing' and the documented error settings, is the oracle",
           "candidate bindings for a branch come from the real matcher (covered by C01-C03)",
           "error message texts are opaque tokens; traces are not compared"]
-reg("C04", "./checks/core", "^TestC04", assumptions=A_CORE)
+reg("C04", "./checks/core", "^TestC04", assumptions=A_CORE, fuzz=[("./checks/core", "FuzzC04Step", 60)])
 reg("C05", "./checks/core", "^TestC05", assumptions=A_CORE)
 reg("C06", "./checks/core", "^TestC06", assumptions=A_CORE[2:] + ["native actions never mutate nested values in place (actions are documented as side-effect free)"])
-reg("C07", "./checks/core", "^TestC07", crash_is_violation=True, assumptions=["a nil *State and Execution literals with nil Events are API misuse, not generated", "panics inside the third-party YAML parser on byte-level garbage are not searched for"])
+reg("C07", "./checks/core", "^TestC07", crash_is_violation=True, fuzz=[("./checks/core", "FuzzC07Total", 120)], assumptions=["a nil *State and Execution literals with nil Events are API misuse, not generated", "panics inside the third-party YAML parser on byte-level garbage are not searched for"])
 reg("C08", "./checks/core", "^TestC08", assumptions=A_CORE[2:] + ["the action model (lib/sm/actlang.go) says which emissions a completed action makes", "after a walk's deadline has passed a later action may complete or be cut short (both accepted)"])
 reg("C09", "./checks/core", "^TestC09", assumptions=["specifications are deterministic by construction", "the state is serialised with core.State's own JSON tags, as sio and mcrew do"])
-reg("C13", "./checks/core", "^TestC13", assumptions=["strings in YAML renderings are produced by the YAML library's own marshaller", "native actions cannot be represented as text and are not generated here"])
-reg("C18", "./checks/core", "^TestC18", assumptions=A_CORE + ["an action that returns null gets empty bindings; whether permanent bindings survive that is not judged"])
+reg("C13", "./checks/core", "^TestC13", fuzz=[("./checks/core", "FuzzC13Repr", 90)], assumptions=["strings in YAML renderings are produced by the YAML library's own marshaller", "native actions cannot be represented as text and are not generated here"])
+reg("C18", "./checks/core", "^TestC18", fuzz=[("./checks/core", "FuzzC18Permanent", 45)], assumptions=A_CORE + ["an action that returns null gets empty bindings; whether permanent bindings survive that is not judged"])
 
 A_ES = ["schedules are sampled by the Go scheduler under the race detector; a green run is 'no counterexample in the sampled schedules'"]
 reg("C10", "./checks/es", "^TestC10", race=True, shards=(4, 16), assumptions=A_ES)
@@ -101,7 +102,7 @@ reg("C16", "./cmd/mcrew", "^TestC16", overlay=OV_MCREW, shards=(4, 16), level="f
 
 reg("C19", "./checks/tools", "^TestC19", shards=(16, 16), assumptions=["only soundness is judged: a spurious failure of the tool under load is not an alarm", "the emitted stream is produced by `cat` echoing each step's inputs; patterns yield at most one set of bindings"])
 
-reg("C20", "./checks/tools", "^TestC20", assumptions=["syntactic validity of the DOT/Mermaid text for exotic names is not judged (no Graphviz here); node names contain no line breaks, ' -> ' or ' ['", "the analysis is compared as sets and counts; 'default' stands for 'no interpreter named'"])
+reg("C20", "./checks/tools", "^TestC20", fuzz=[("./checks/tools", "FuzzC20Graph", 45)], assumptions=["syntactic validity of the DOT/Mermaid text for exotic names is not judged (no Graphviz here); node names contain no line breaks, ' -> ' or ' ['", "the analysis is compared as sets and counts; 'default' stands for 'no interpreter named'"])
 
 
 def log(*a):
@@ -268,6 +269,47 @@ def write_evidence(pid, cfg, tier, seed, subs, wall, violations, inconclusive, e
     os.replace(tmp, os.path.join(ROOT, "evidence", pid + ".json"))
 
 
+def run_fuzz(pid, pkg, target, seconds, work):
+    """Coverage-guided campaign (go test -fuzz) on top of the seeded runs;
+    cannot be pinned to a seed: the saved failing case is the reproducible unit."""
+    import re
+    env = dict(GOENV)
+    env.update({"VERIF_REPLAY_DIR": os.path.join(ROOT, "replays"), "VERIF_WORK": work, "VERIF_TIER": "thorough"})
+    t0 = time.time()
+    cmd = ["go", "test", pkg, "-run", "^$", "-fuzz", "^%s$" % target, "-fuzztime", "%ds" % seconds, "-vet=off"]
+    p = subprocess.run(cmd, cwd=ROOT, env=env, stdout=subprocess.PIPE, stderr=subprocess.STDOUT, text=True)
+    execs = [int(x) for x in re.findall(r"execs: (\d+)", p.stdout)]
+    info = {"target": target, "seconds": seconds, "execs": max(execs) if execs else 0, "violations": []}
+    # the fuzzer's own crasher files are not needed (the worker wrote a replay)
+    shutil.rmtree(os.path.join(ROOT, pkg, "testdata", "fuzz"), ignore_errors=True)
+    if p.returncode != 0:
+        new = [f for f in glob.glob(os.path.join(ROOT, "replays", pid, "fuzz-*.json")) if os.path.getmtime(f) >= t0 - 1]
+        if new:
+            f = sorted(new, key=os.path.getmtime)[-1]
+            msg = ""
+            try:
+                msg = json.load(open(f)).get("message", "")
+            except Exception:
+                pass
+            info["violations"].append(("VIOLATION property=%s replay=%s" % (pid, f), "  %s/fuzz: %s" % (pid, msg[:300])))
+        elif "fatal error:" in p.stdout and cfg_crash(pid):
+            journals = sorted(glob.glob(os.path.join(work, "journal-%s-*.json" % pid)), key=os.path.getmtime)
+            if journals:
+                os.makedirs(os.path.join(ROOT, "replays", pid), exist_ok=True)
+                dst = os.path.join(ROOT, "replays", pid, "crash-fuzz-%d.json" % int(time.time()))
+                shutil.copy(journals[-1], dst)
+                info["violations"].append(("VIOLATION property=%s replay=%s" % (pid, dst), "  %s/fuzz: the fuzz worker died (fatal error)" % pid))
+        else:
+            log("native fuzz run of %s ended abnormally (not counted):" % target)
+            log(p.stdout[-1500:])
+            info["abnormal"] = True
+    return info
+
+
+def cfg_crash(pid):
+    return CHECKS.get(pid, {}).get("crash_is_violation", False)
+
+
 def run_check(pid, tier, replay=None):
     cfg = CHECKS[pid]
     if cfg.get("parts"):
@@ -417,6 +459,13 @@ def run_one(pid, cfg, tier, replay=None):
     # every shard must have explored what it was asked to
     short = [s["name"] for s in subs.values() if not s["replay"] and s["violations"] == 0
              and s["evaluations"] + sum(s["skipped"].values()) < s["requested"]]
+    fuzz_info = []
+    if tier == "thorough" and not replay and cfg.get("fuzz") and not violations:
+        for pkg, target, seconds in cfg["fuzz"]:
+            fr = run_fuzz(pid, pkg, target, seconds, work)
+            fuzz_info.append(fr)
+            for line, detail in fr.pop("violations"):
+                violations.append((line, detail))
     for line in known:
         log(line)
     rc = 0
@@ -441,6 +490,9 @@ def run_one(pid, cfg, tier, replay=None):
         pid, tier, ev, sum(len(s["hashes"]) for s in subs.values()), nshards, wall,
         {0: "held", 1: "VIOLATED", 2: "INCONCLUSIVE"}[rc]))
     shutil.rmtree(work, ignore_errors=True)
+    if fuzz_info and subs:
+        first = next(iter(subs.values()))
+        first["notes"]["native_fuzz"] = fuzz_info
     return rc, subs, wall, len(violations)
 
 
